@@ -22,6 +22,19 @@ def perturb(u, rng, nmax=2):
     return v
 
 
+def wild(u, rng, values=(0, 1, 2, 6, 9)):
+    """arbitrary non-negative weights, far from any flow: large per-element errors are unavoidable
+    (a low-weight bridge under heavy paths).  Not all zero."""
+    v = dict(u)
+    v["ew"] = [rng.choice(values) for _ in u["ew"]]
+    if all(x == 0 for x in v["ew"]):
+        v["ew"][0] = 6
+    v["nw"] = [rng.choice(values) for _ in u["nw"]]
+    if all(x == 0 for x in v["nw"]):
+        v["nw"][0] = 6
+    return v
+
+
 def fit_adversary(recs, res, exact, clause="OptimalObjective"):
     adv = []
     for r in recs:
@@ -36,9 +49,16 @@ def fit_adversary(recs, res, exact, clause="OptimalObjective"):
         a["k"] = r["k"] if r["k"] != vlib.NONE else r["k_model"]
         a["tol"] = 0 if r["wt"] == "int" else 20
         obs_units = (r["obj"] * r["den"]) // (r["num"] * vlib.UNIT if hasattr(vlib, "UNIT") else r["num"] * 10000)
+        # keep the adversary's search space small (bounding it can only lose witnesses): with slacks the branching grows
+        # with the observed total slack, so large observed objectives are left to the consistency clauses
+        is_mpe = r["cls"].startswith("kMinPathError")
+        if (is_mpe and (obs_units > 4 or maxf > 6)) or (not is_mpe and obs_units > 14):
+            res.count_class("adversary_skipped_large_objective")
+            continue
         a["acccap"] = maxf + max(0, obs_units) + 1
         a["maxslack"] = 0
         a["prodcap"] = -1
+        a["repcaps"] = []
         adv.append(a)
         res.count_class("adversary_optimality_runs")
     wit = P.adversary("Adv_Fit", adv, res)
@@ -55,6 +75,16 @@ def fit_adversary(recs, res, exact, clause="OptimalObjective"):
     wit2 = P.adversary("Adv_Fit", again, res) if again else {}
     for b in again:
         byid[b["id"]]["needs_product_above_k_maxf"] = b["id"] not in wit2
+    # third pass: does the witness survive the repetition caps the model computed for itself?
+    third = []
+    for a in adv:
+        if a["id"] in wit and a["cls"].endswith("Cycles") and a.get("repcaps_obs") and a["mode"] == "edge":
+            c = dict(a)
+            c["repcaps"] = a["repcaps_obs"]
+            third.append(c)
+    wit3 = P.adversary("Adv_Fit", third, res) if third else {}
+    for c in third:
+        byid[c["id"]]["needs_repetitions_above_cap"] = c["id"] not in wit3
     for a in adv:
         bad = a["id"] in wit
         res.clause(clause, 1, 1 if bad else 0)
